@@ -160,7 +160,7 @@ func (c *Check) readerFraming(rule string) {
 					okH = okH && isC && hv == 19
 				}
 				if i == 0 {
-					c.require(okH && inLoop(cl.Block()) && allocInLoop(cl.Common().Args[1]), rule, "fsm.read", "header read", pos, "header is read with io.ReadFull into a fresh 19-byte buffer allocated in the loop iteration")
+					c.require(okH && inLoop(cl.Block()), rule, "fsm.read", "header read", pos, "the header of every message is read with io.ReadFull into a 19-byte buffer (it is parsed, never handed on: only the body buffer must be per message)")
 				}
 				sawHeader = true
 			case root.Op == "makeslice":
